@@ -140,17 +140,75 @@ def r2(p, rep):
             rep.add("C11.R2", f"{g.qualname}:raise_on_import_failure", h.loc, ok, f"backend selection and `raise_on_import_failure()` live in helper {h.name}; the check dominates its return" if ok else f"helper {h.name} returns the selected backend without the import-failure check")
 
 
+def _fold(m, n, env=None):
+    """constant value of an expression built from literals, module-level string/int constants and f-strings; else None"""
+    env = env or {}
+    if isinstance(n, ast.Constant):
+        return n.value
+    if isinstance(n, ast.UnaryOp) and isinstance(n.op, ast.USub):
+        v = _fold(m, n.operand, env)
+        return -v if isinstance(v, (int, float)) else None
+    if isinstance(n, ast.Name):
+        if n.id in env:
+            return _fold(m, env[n.id], {})
+        vals = [st.value for st in m.tree.body if isinstance(st, ast.Assign) and len(st.targets) == 1 and isinstance(st.targets[0], ast.Name) and st.targets[0].id == n.id]
+        return _fold(m, vals[0], {}) if len(vals) == 1 else None
+    if isinstance(n, ast.JoinedStr):
+        out = ""
+        for v in n.values:
+            if isinstance(v, ast.Constant):
+                out += str(v.value)
+            elif isinstance(v, ast.FormattedValue) and v.format_spec is None and v.conversion == -1:
+                x = _fold(m, v.value, env)
+                if x is None:
+                    return None
+                out += str(x)
+            else:
+                return None
+        return out
+    if isinstance(n, ast.BinOp) and isinstance(n.op, ast.Add):
+        a, b = _fold(m, n.left, env), _fold(m, n.right, env)
+        return a + b if isinstance(a, str) and isinstance(b, str) else None
+    return None
+
+
+class _Folded(ast.Constant):
+    pass
+
+
+def _as_const(m, n, env=None):
+    """the expression itself, or an ast.Constant standing for its folded value"""
+    v = _fold(m, n, env)
+    if v is None or isinstance(n, ast.Constant):
+        return n
+    c = ast.Constant(value=v)
+    return ast.copy_location(c, n)
+
+
 def backend_tables(p):
-    """per impl module: registrations [(module_name, backend_name, factory)] and Backend(...) constructions"""
+    """per impl module: registrations [(module_name, backend_name, factory, call)] and Backend(...) constructions;
+    names written through module constants / f-strings are folded, registrations made in a loop over a literal
+    table of tuples are unrolled"""
     out = {}
     for fw, m in backends.impl_modules(p).items():
         regs, ctors = [], []
         for n in ast.walk(m.tree):
             if isinstance(n, ast.Call):
                 if norm(n.func).endswith("registry.register_on_import") and len(n.args) == 3:
-                    regs.append((n.args[0], n.args[1], n.args[2], n))
+                    loop = enclosing(n, ast.For)
+                    if loop is not None and isinstance(loop.iter, (ast.Tuple, ast.List)) and all(isinstance(r, (ast.Tuple, ast.List)) for r in loop.iter.elts):
+                        tg = [e.id for e in loop.target.elts] if isinstance(loop.target, ast.Tuple) else [loop.target.id]
+                        for row in loop.iter.elts:
+                            env = dict(zip(tg, row.elts))
+                            args = [env.get(a.id, a) if isinstance(a, ast.Name) else a for a in n.args]
+                            regs.append((_as_const(m, args[0]), _as_const(m, args[1]), args[2], n))
+                    else:
+                        regs.append((_as_const(m, n.args[0]), _as_const(m, n.args[1]), n.args[2], n))
                 r = resolve_callee(p, n, m)
                 if r and r[0] == "class" and r[1].name == "Backend":
+                    for k in n.keywords:
+                        if k.arg == "name":
+                            k.value = _as_const(m, k.value)
                     ctors.append(n)
         out[fw] = (m, regs, ctors)
     return out
@@ -199,8 +257,8 @@ def r3(p, rep):
             if isinstance(fac, ast.Name):
                 facs = [g for g in p.funcs.values() if g.module is m and g.parent is None and g.name == fac.id]
                 for g in facs:
-                    rnames = {_const(r.value.elts[-1]) for r in walk_no_nested(g.node) if isinstance(r, ast.Return) and isinstance(r.value, ast.Tuple) and r.value.elts and isinstance(_const(r.value.elts[-1]), str)}
-                    bnames = {_const(common.kwarg(c, "name")) for c in walk_no_nested(g.node) if isinstance(c, ast.Call) and isinstance(_const(common.kwarg(c, "name")), str) and norm(c.func).split(".")[-1] == "Backend"}
+                    rnames = {_fold(m, r.value.elts[-1]) for r in walk_no_nested(g.node) if isinstance(r, ast.Return) and isinstance(r.value, ast.Tuple) and r.value.elts and isinstance(_fold(m, r.value.elts[-1]), str)}
+                    bnames = {_fold(m, common.kwarg(c, "name")) for c in walk_no_nested(g.node) if isinstance(c, ast.Call) and common.kwarg(c, "name") is not None and isinstance(_fold(m, common.kwarg(c, "name")), str) and norm(c.func).split(".")[-1] == "Backend"}
                     got = rnames | bnames
                     if got:
                         ok = got == {bn}
